@@ -184,3 +184,38 @@ package stats
 //@   model real
 //@   ensures [def] result == HistogramQuantile(hist, 0.75) - HistogramQuantile(hist, 0.25)
 //@   assigns nothing
+
+// ---------------------------------------------------------------------
+// Descriptive statistics (C09, C10). Bounds in model xreal (NaN, +-Inf).
+
+//@ spec allfin(a []float64) bool = forall k in 0..len(a) :: isfinite(a[k])
+//@ spec sortedF(a []float64) bool = forall i in 0..len(a), j in 0..len(a) :: i <= j ==> a[i] <= a[j]
+
+//@ func Bounds
+//@   model xreal
+//@   requires allfin(xs)
+//@   ensures [empty] len(xs) == 0 ==> isnan(min) && isnan(max)
+//@   ensures [lower] len(xs) > 0 ==> (forall k in 0..len(xs) :: min <= xs[k])
+//@   ensures [upper] len(xs) > 0 ==> (forall k in 0..len(xs) :: xs[k] <= max)
+//@   ensures [min-attained] len(xs) > 0 ==> (exists k in 0..len(xs) :: min == xs[k])
+//@   ensures [max-attained] len(xs) > 0 ==> (exists k in 0..len(xs) :: max == xs[k])
+//@   loop 1 (x) invariant (forall j in 0.._k :: min <= xs[j] && xs[j] <= max) && (exists j in 0..len(xs) :: min == xs[j]) && (exists j in 0..len(xs) :: max == xs[j])
+//@   assigns nothing
+
+//@ spec wfSample(s Sample) bool =
+//@     allfin(s.Xs) && (!isnil(s.Weights) ==> len(s.Weights) == len(s.Xs) && allfin(s.Weights)) && (s.Sorted ==> sortedF(s.Xs))
+
+//@ func Sample.Bounds
+//@   model xreal
+//@   requires wfSample(s)
+//@   ensures [unweighted-empty] len(s.Xs) == 0 ==> isnan(min) && isnan(max)
+//@   ensures [unweighted-lower] isnil(s.Weights) && len(s.Xs) > 0 ==> (forall k in 0..len(s.Xs) :: min <= s.Xs[k] && s.Xs[k] <= max)
+//@   ensures [unweighted-attained] isnil(s.Weights) && len(s.Xs) > 0 ==> (exists k in 0..len(s.Xs) :: min == s.Xs[k]) && (exists k in 0..len(s.Xs) :: max == s.Xs[k])
+//@   ensures [weighted-all-zero] !isnil(s.Weights) && (forall k in 0..len(s.Xs) :: s.Weights[k] == 0) ==> isnan(min) && isnan(max)
+//@   ensures [weighted-lower] !isnil(s.Weights) ==> (forall k in 0..len(s.Xs) :: s.Weights[k] != 0 ==> min <= s.Xs[k] && s.Xs[k] <= max)
+//@   ensures [weighted-min-attained] !isnil(s.Weights) && (exists k in 0..len(s.Xs) :: s.Weights[k] != 0) ==> (exists k in 0..len(s.Xs) :: s.Weights[k] != 0 && min == s.Xs[k])
+//@   ensures [weighted-max-attained] !isnil(s.Weights) && (exists k in 0..len(s.Xs) :: s.Weights[k] != 0) ==> (exists k in 0..len(s.Xs) :: s.Weights[k] != 0 && max == s.Xs[k])
+//@   loop 1 (i) invariant isnan(min) && isnan(max) && (forall j in 0..i :: s.Weights[j] == 0)
+//@   loop 2 (i) invariant isnan(max) && (forall j in len(s.Weights)-i..len(s.Weights) :: s.Weights[j] == 0)
+//@   loop 3 (i) invariant (forall j in 0..i :: s.Weights[j] != 0 ==> min <= s.Xs[j] && s.Xs[j] <= max) && (min == inf || (exists j in 0..len(s.Xs) :: s.Weights[j] != 0 && min == s.Xs[j])) && (max == ninf || (exists j in 0..len(s.Xs) :: s.Weights[j] != 0 && max == s.Xs[j])) && ((min == inf) == (max == ninf)) && (min == inf ==> (forall j in 0..i :: s.Weights[j] == 0))
+//@   assigns nothing
